@@ -158,6 +158,21 @@ example : LWF 0 [.m 1 97 1 60, .w 1 100 90 [(0, 2), (2, 3)], .b2 101 104 false 3
 theorem unsafe_layout_counterexample :
     (readAll .fixed false 8 20 (responseTokens [.m 1 5 1 60, .b2 10 11 false 12 [(0, 2, 12)]] (-1))).2.2 = .desync := by decide
 
+/-- observation (a), not a finding: *outside* the fetch contract — a response cut inside its first v2 batch — the
+records below the start offset that were read and skipped leave the position below it (103 → 102); a later complete
+response would then hand out record 102.  No broker produces this: v2 batches are only sent for fetch v4+, where
+(KIP-74) the first batch always comes whole; for fetch v2 the data is v0/v1, whose items are read whole or not at all.
+Under the contract `fetch_progress` excludes it. -/
+theorem first_batch_cut_moves_back_example :
+    readAll .fixed false 103 106 (responseTokens [.b2 99 103 false 73 [(2, 1, 18), (3, 2, 48), (4, 3, 7)]] 81)
+      = ([], 102, .eof) := by decide
+
+/-- observation (c), not a finding: an empty batch that still carries a compression attribute and a payload (the log
+cleaner writes empty batches as a bare header, `LWF` says so) desynchronises the decoder -/
+theorem compressed_empty_batch_desync_example :
+    (readAll .fixed false 100 120 (responseTokens [.b2 100 101 true 20 [], .b2 102 103 false 12 [(0, 1, 12)]] (-1))).2.2
+      = .desync := by decide
+
 /-! ## 2. Repeated fetches against a broker that obeys the fetch contract -/
 
 /-- `fetch_progress`: when the broker has anything at or after the position (`dropBefore q L ≠ []`) and is not at the
